@@ -87,8 +87,8 @@ let show (r : cval res) : string =
 
 (* config.DecodeAndValidate into AmmoConfig (the C17 decoder on the regenerated schema) *)
 let dv (t : value) : cval res =
-  decode_and_validate no_env no_prop no_orc no_orcq gen_registry model_factory_lazy (fuel_for t)
-    gen_ammo_schema gen_ammo_default t
+  with_ctor (fun t -> decode_and_validate no_env no_prop no_orc no_orcq gen_registry model_factory_lazy (fuel_for t)
+                        gen_ammo_schema gen_ammo_default t) t
 
 (* the YAML front-end: ParseAmmoConfig = DecodeMap (decoder + the guard on scenario weights, Model/ScenarioGuard.v) *)
 let decode_tree (t : value) : string = show (read_yaml dv gen_ammo_schema t)
@@ -220,6 +220,27 @@ let predict (c : string) (obs : string) : string * string * bool =
       (* non-trivial: a description the YAML front-end accepts, or one that the decoder alone would accept and the
          guard of the shared entry point refuses (both front-ends must refuse it) *)
       (pred, v, get "y=" <> "err" || (match dv tree with Ok _ -> true | _ -> false))
+  | ["ext"; namehex; how; tok] ->
+      (* format selection by the file name (Model/ScenarioGuard.v format_of / read_file).  how: m = the file holds the
+         description in the syntax its name selects; x = in the OTHER syntax (must be refused: the name decides, not
+         the content); a = there is no such file *)
+      let tree = parse_tree tok in
+      let name = str_of_hex namehex in
+      let hv = (match tree with VMap kvs -> fields_of gen_hcl_root kvs | _ -> []) in
+      let expected =
+        (match how with
+         | "m" -> show (read_file dv gen_ammo_schema gen_hcl_root name tree hv)
+         | _ -> "err") in
+      let r = get_field obs "r=" in
+      let v = if r = "panic" then "BAD:panic"
+              else if r = expected then "ok"
+              else (match how, format_of name with
+                    | "m", Some FHcl -> "BAD:file-named-hcl-not-read-as-hcl"
+                    | "m", Some FYaml -> "BAD:file-named-yaml-or-yml-not-read-as-yaml"
+                    | "m", None -> "BAD:file-of-another-extension-accepted"
+                    | "x", _ -> "BAD:format-chosen-by-content-not-by-name"
+                    | _, _ -> "BAD:missing-file-accepted") in
+      ("r=" ^ expected, v, how <> "a")
   | _ -> ("bad-case", "BAD:bad-case", false)
 
 let () = run_cases predict
